@@ -182,4 +182,31 @@ def target_array_rules():
     return pyvc.collect(paths, "array-rules"), sum(1 for p in paths if p.covered)
 
 
-TARGETS = {"_check_type_requirements_for_field": target_type_requirements_for_field, "_check_allowed_in_bits": target_allowed_in_bits, "array_rules": target_array_rules}
+def target_reserved_words():
+    """constraints._check_name_for_reserved_words and its four wrappers (field / enum / parameter / type name): exactly one
+    error, at the name, naming the language the word is reserved in and the kind of name, iff the name is in the reserved
+    word table (membership symbolic); nothing otherwise.  (That the table holds every word of
+    compiler/front_end/reserved_words is a ground obligation of C14.)"""
+    cons, ir_util, eng = _engine()
+    from vlib.pyvc import GDict, SBool
+
+    def harness(c):
+        fn, ctx = c.choice("entry-point", ["_check_field_name_for_reserved_words|a field name", "_check_enum_name_for_reserved_words|an enum name",
+                                           "_check_parameter_name_for_reserved_words|a parameter name", "_check_type_name_for_reserved_words|a type name"]).split("|")
+        reserved = z3.Bool("name_is_a_reserved_word")
+        table = GDict({"x": SBool(reserved)}, {"x": "C++"}, truthy=True, label="reserved-words")
+        eng.contract(cons.get_reserved_word_list, lambda interp: table, "get_reserved_word_list")
+        obj = SRec("Definition", {"name": SRec("NameDefinition", {"name": SRec("Word", {"text": "x", "source_location": ("LOC", "name")})})})
+        errors = []
+        c.covered = True
+        pyvc.run_body(c, CN + "." + fn, [obj, "m.emb", errors])
+        if errors:
+            ok = len(errors) == 1 and len(errors[0]) == 1 and errors[0][0][1] == ("LOC", "name") and errors[0][0][2] == "C++ reserved word may not be used as %s." % ctx
+            c.oblige("reserved-name:one-error-at-the-name-with-language-and-kind", z3.And(reserved, z3.BoolVal(ok)), detail=repr(errors)[:200])
+        else:
+            c.oblige("no-error-only-for-names-outside-the-table", z3.Not(reserved))
+    paths = eng.explore(harness)
+    return pyvc.collect(paths, "_check_name_for_reserved_words"), sum(1 for p in paths if p.covered)
+
+
+TARGETS = {"_check_type_requirements_for_field": target_type_requirements_for_field, "_check_name_for_reserved_words": target_reserved_words, "_check_allowed_in_bits": target_allowed_in_bits, "array_rules": target_array_rules}
